@@ -13,6 +13,9 @@ static inline uint64_t vg_nbits(uint64_t n, uint32_t bits) {
     return bits == 1 ? n : bits == 4 ? (n << 2) : bits == 8 ? (n << 3) : bits == 16 ? (n << 4) : bits == 24 ? ((n << 4) + (n << 3)) : bits == 32 ? (n << 5) : (n << 6);
 }
 #define VG_FBITS(self) (((self)->parent->signal_def.data_type >> 8) & 0xffu)
+#ifndef VG_KF31
+#define VG_KF31 0          /* 1 in the known-finding variant unit: states the clause that F31 violates */
+#endif
 #define VG_ID_MAX (1ll << 60)          /* stated bound on sample ids */
 #define VG_N_MAX (1u << 28)            /* stated bound on samples per call */
 
